@@ -1432,6 +1432,13 @@ func (ex *Exec) helperCall(st *State, fn *ssa.Function, args []Value, env []Valu
 	if r, ok := st.Repl[fn.String()]; ok {
 		fn, env = r.Fn, r.Env
 	}
+	if intr, ok := ex.Intr[fn.String()]; ok {
+		// the helper is itself an intrinsic: run it in place (it must complete at once)
+		if v, done := intr(ex, st, args, nil); done {
+			return v, true
+		}
+		ex.unsupported(st, "helper call of a blocking intrinsic "+fn.String())
+	}
 	ex.pushFrame(st, fn, args, env, nil)
 	st.frame().IsMemo = true
 	return nil, false
